@@ -1051,6 +1051,119 @@ def ex_predict(lines, cmds, find):
     return b''.join(buf)
 
 
+SIMPLE_RE = re.compile(rb'^\^?(\\<)?[^\\.*+?\[\]{}()$|^]*(\\>)?\$?$')
+
+
+def ex_model_predictions(model, scripts, env=None):
+    """the final buffer of every script predicted from the model's answers (every pattern compiled alone); None where a
+    plain word is involved (rstr.c handles those without the regex engine: property C12) or the model fails"""
+    cache = {}
+
+    def ask(batch):
+        reqs = [req(ic, 1, [p], [(0, l)]) for (ic, p, l) in batch]
+        ans, _ = run_all(model, reqs, chunk=400, timeout=300, env=env)
+        for k, a in zip(batch, ans):
+            if a is None:
+                cache[k] = 'err'
+                continue
+            d = parse_answer(a)
+            if d['status'] != 'ok' or not d['cases'] or d['cases'][0]['kind'] != 'set':
+                cache[k] = None if d['status'] == 'rej' else 'err'
+            else:
+                c = d['cases'][0]
+                cache[k] = (c['set'], c['g'][0][0], c['g'][0][1]) if c['set'] >= 0 else (-1, -1, -1)
+    # iterate to a fixed point: predicting needs answers on the evolving buffer
+    preds = [None] * len(scripts)
+    for _round in range(12):
+        missing = set()
+        for j, sc in enumerate(scripts):
+            if any(SIMPLE_RE.match(c[-1]) for c in sc['cmds']):
+                continue
+
+            def find(p, l, ic=sc['ic']):
+                k = (ic, p, l)
+                if k not in cache:
+                    missing.add(k)
+                    return None
+                v = cache[k]
+                if v == 'err':
+                    raise KeyError
+                return v
+            try:
+                preds[j] = ex_predict(sc['lines'], sc['cmds'], find)
+            except KeyError:
+                preds[j] = None
+        if not missing:
+            break
+        ask(sorted(missing))
+    return preds
+
+
+def check_ex_utf8(res, vi, model, scripts, env=None):
+    """scripts: dict(ic, lines, cmds, cont=bool).  Valid UTF-8 buffers, :s / :g with ASCII replacement text.
+      * cont (every pattern's first mandatory literal begins with a continuation byte): nothing can match, the buffer
+        must come back unchanged;
+      * valid UTF-8 patterns: the buffer must still be valid UTF-8 (match offsets are character boundaries);
+      * model prediction (correspondence)."""
+    def work(sc):
+        r = vlib.run_ex(vi, ex_script(sc['ic'], sc['cmds']), files={'f': b''.join(sc['lines'])}, args=['f'], readback=['f'], timeout=20)
+        if r.timed_out:
+            r = vlib.run_ex(vi, ex_script(sc['ic'], sc['cmds']), files={'f': b''.join(sc['lines'])}, args=['f'], readback=['f'], timeout=60)
+        return r
+    outs = vlib.pmap(work, scripts)
+    preds = ex_model_predictions(model, scripts, env) if model else [None] * len(scripts)
+    nv = nd = 0
+    for sc, r, pr in zip(scripts, outs, preds):
+        res.evaluations += 1
+        res.count('ex scripts: ill-formed pattern bytes / multi-byte repetition on valid UTF-8 buffers')
+        inp = {'ic': sc['ic'], 'file': hx(b''.join(sc['lines'])), 'ex_script': hx(ex_script(sc['ic'], sc['cmds'])),
+               'script_text': ex_script(sc['ic'], sc['cmds']).decode('utf-8', 'replace'), 'file_text': b''.join(sc['lines']).decode('utf-8', 'replace')}
+        if r.crashed():
+            res.violation({'what': 'the editor crashed or hung on an ex script (rc=%s)' % r.rc, 'input': [inp], 'observed': r.err[-1200:].decode('utf-8', 'replace')})
+            continue
+        got = r.files.get('f')
+        orig = b''.join(sc['lines'])
+        bad = None
+        if sc.get('cont') and got != orig:
+            bad = ('vi -s -e: a pattern whose first literal begins with a UTF-8 continuation byte matched inside a multi-byte character of a valid '
+                   'UTF-8 line (matches start at character starts; nothing can match)')
+        elif got is not None and valid_utf8(orig) and all(valid_utf8(c[-1]) for c in sc['cmds']) and not valid_utf8(got):
+            bad = ('vi -s -e: a valid UTF-8 buffer becomes invalid UTF-8 under :s with a valid UTF-8 pattern and an ASCII replacement '
+                   '(a match offset fell inside a character)')
+        if bad and nv < 4:
+            nv += 1
+            res.violation({'what': bad, 'input': [inp], 'expected': (orig if sc.get('cont') else (pr or b'')).decode('utf-8', 'replace'),
+                           'observed': (got or b'').decode('utf-8', 'replace'), 'observed_hex': hx(got or b'')})
+        if pr is not None and got != pr:
+            nd += 1
+            if nd <= 3:
+                res.disagree({'what': 'vi -s -e and the buffer predicted from the model differ (ill-formed pattern bytes / multi-byte repetition)',
+                              'input': [inp], 'implementation': hx(got or b''), 'model': hx(pr)})
+    res.extra['ex_utf8_scripts'] = len(scripts)
+    res.extra['ex_utf8_model_differences'] = nd
+
+
+def gen_ex_utf8(rng, n):
+    out = []
+    for e in gen_stray(rng, n):
+        if not e['cont']:
+            continue
+        lines = [l if l.endswith(b'\n') else l + b'\n' for l in e['lines']]
+        p = e['pats'][0]
+        cmds = [('s', 1 + rng.below(len(lines)), p), ('g', p)] if rng.below(2) else [('g', p), ('s', 1 + rng.below(len(lines)), p)]
+        cmds = [c for c in cmds if ex_cmd_bytes(c) is not None]
+        if cmds:
+            out.append({'ic': 1 if rng.below(5) == 0 else 0, 'lines': lines, 'cmds': cmds, 'cont': True})
+    for e in gen_mbrep(rng, n):
+        lines = [l if l.endswith(b'\n') else l + b'\n' for l in e['lines']]
+        p = e['pats'][0]
+        cmds = [('s', k + 1, p) for k in range(len(lines))]
+        cmds = [c for c in cmds if ex_cmd_bytes(c) is not None]
+        if cmds:
+            out.append({'ic': rng.below(2), 'lines': lines, 'cmds': cmds, 'cont': False})
+    return out
+
+
 def check_ex_sequences(res, vi, probe, model, scripts, env=None, max_report=4):
     """scripts: list of dict(ic=0|1, lines=[bytes ending in \\n], cmds=[...]).  Commands that cannot be written as
     an ex command (no free delimiter, trailing backslash) must have been dropped by the caller (ex_cmd_bytes)."""
@@ -1064,7 +1177,6 @@ def check_ex_sequences(res, vi, probe, model, scripts, env=None, max_report=4):
     ul = [q_line([('M', ic, [p])]) for ic, p in keys]
     uans, _ = run_all(probe, ul, chunk=400, timeout=300, env=dict(env, PROBE_RE_FORK='1'))
     rejected = {k: (a is not None and a.startswith('rej')) for k, a in zip(keys, uans)}
-    simple_re = re.compile(rb'^\^?(\\<)?[^\\.*+?\[\]{}()$|^]*(\\>)?\$?$')
 
     def run1(sc, cmds):
         r = vlib.run_ex(vi, ex_script(sc['ic'], cmds), files={'f': b''.join(sc['lines'])}, args=['f'], readback=['f'], timeout=20)
@@ -1113,46 +1225,9 @@ def check_ex_sequences(res, vi, probe, model, scripts, env=None, max_report=4):
                            'input': [{'ic': sc['ic'], 'file': hx(b''.join(sc['lines'])), 'ex_script': hx(ex_script(sc['ic'], small)),
                                       'script_text': text(sc, small), 'without_rejected_commands': text(sc, k)}],
                            'expected': (b.files.get('f') or b'').decode('utf-8', 'replace'), 'observed': (a.files.get('f') or b'').decode('utf-8', 'replace')})
-    # oracle 2: the model's prediction (each pattern alone), evaluated lazily with a small cache of R requests
+    # oracle 2: the model's prediction (each pattern alone)
     if model:
-        cache = {}
-
-        def ask(batch):
-            reqs = [req(ic, 1, [p], [(0, l)]) for (ic, p, l) in batch]
-            ans, _ = run_all(model, reqs, chunk=400, timeout=300, env=env)
-            for k, a in zip(batch, ans):
-                if a is None:
-                    cache[k] = 'err'
-                    continue
-                d = parse_answer(a)
-                if d['status'] != 'ok' or not d['cases'] or d['cases'][0]['kind'] != 'set':
-                    cache[k] = None if d['status'] == 'rej' else 'err'
-                else:
-                    c = d['cases'][0]
-                    cache[k] = (c['set'], c['g'][0][0], c['g'][0][1]) if c['set'] >= 0 else (-1, -1, -1)
-        # iterate to a fixed point: predicting needs answers on the evolving buffer
-        preds = [None] * len(scripts)
-        for _round in range(12):
-            missing = set()
-            for j, sc in enumerate(scripts):
-                if any(simple_re.match(c[-1]) for c in sc['cmds']):
-                    continue        # plain words do not go through the regex engine (rstr.c): property C12
-                def find(p, l, ic=sc['ic']):
-                    k = (ic, p, l)
-                    if k not in cache:
-                        missing.add(k)
-                        return None
-                    v = cache[k]
-                    if v == 'err':
-                        raise KeyError
-                    return v
-                try:
-                    preds[j] = ex_predict(sc['lines'], sc['cmds'], find)
-                except KeyError:
-                    preds[j] = None
-            if not missing:
-                break
-            ask(sorted(missing))
+        preds = ex_model_predictions(model, scripts, env)
         nd = 0
         for j, sc in enumerate(scripts):
             if preds[j] is None or outs[j][0].crashed():
@@ -1169,3 +1244,48 @@ def check_ex_sequences(res, vi, probe, model, scripts, env=None, max_report=4):
         res.extra['ex_script_model_differences'] = nd
     res.extra['ex_scripts'] = len(scripts)
     res.extra['ex_patterns_rejected_in_fresh_process'] = sum(1 for v in rejected.values() if v)
+
+
+# ---------------------------------------------------------------------------------------------
+# ill-formed PATTERN bytes against VALID multi-byte lines: regexec tries only character starts (uc_len steps:
+# `tried` of C10_sound / C10_leftmost_priority, C11_match_starts_on_boundary), so a pattern whose first mandatory
+# literal begins with a UTF-8 continuation byte can never match a valid line, and a pattern that begins with a
+# truncated lead byte can only match at the start of a character.
+MB_CHARS = ['é', 'è', 'É', 'à', 'ü', '中', '丮', '€', '₭', '😀', '😭']
+# ... and multi-byte literals directly in front of a repetition operator (the operator binds to the last CHARACTER)
+MB_REP = ['*', '+', '?', '{0,2}', '{2}', '{1,}', '{1,2}']
+
+
+def gen_stray(rng, n):
+    """-> list of dict(pats, lines, cont): cont = the first mandatory literal begins with a continuation byte"""
+    out = []
+    for _ in range(n):
+        c = rng.choice(MB_CHARS).encode()
+        k = 1 + rng.below(len(c) - 1)
+        cont = rng.below(4) != 0
+        S = c[k:] if cont else c[:k]
+        nxt = rng.choice([b't', b'y', b'_'])
+        form = rng.below(10)
+        p = [S + b'+', b'(' + S + b'){1,2}', S + b'+' + nxt, S + b'[' + nxt + b'x]', b'(' + S + b')', S + b'{1,3}', S + b'.', b'((' + S + b')+)' + nxt + b'?',
+             S + nxt + b'*', S + b'(' + nxt + b'|x)'][form]
+        sib = [x.encode() for x in MB_CHARS if x.encode()[:1] == c[:1] and x.encode() != c]
+        d = rng.choice(sib) if sib and rng.below(2) else c
+        lines = [b'x' + c + nxt, c + c + nxt + b'\n', b'caf' + c + nxt + b' ' + d + b'\n', d + nxt + c + nxt, c + b'\n', b'a' + d + c + c + nxt + b'\n']
+        out.append({'pats': [p], 'lines': lines, 'cont': cont})
+    return out
+
+
+def gen_mbrep(rng, n):
+    """valid UTF-8 patterns: a multi-byte literal directly before * + ? {m,n}; lines with characters that share the
+    lead byte(s) of the pattern character.  -> list of dict(pats, lines)"""
+    out = []
+    for _ in range(n):
+        c = rng.choice(MB_CHARS).encode()
+        sib = [x.encode() for x in MB_CHARS if x.encode()[:1] == c[:1] and x.encode() != c]
+        d = rng.choice(sib) if sib else c
+        pre = rng.choice([b'x', b'', b'ab', c, b'p'])
+        post = rng.choice([b'', b'', b'b', b'$', b'y'])
+        p = pre + c + rng.choice(MB_REP).encode() + post
+        lines = [pre + d + post.replace(b'$', b'') + b'\n', pre + c + c + post.replace(b'$', b'') + b'\n', b'z' + pre + c + d + b'\n', pre + b'\n', pre + d, d + pre + c + c + d + b'\n']
+        out.append({'pats': [p], 'lines': lines})
+    return out
